@@ -123,7 +123,9 @@ theorem isIdUn_sound (w : World) (hc : HCfg) : ∀ (n : Nat) (t : Ty) (x : Obj),
     | str => cases x <;> simp only [un]
     | bytes => cases x <;> simp only [un]
     | bool => cases x <;> simp only [un]
-    | lit vs => cases x <;> simp only [un]
+    | lit vs =>
+      have hl : litHasEnum vs = false := by simpa [isIdUn] using h
+      rw [un]; simp [hl]
     | wrap k t' =>
       simp only [isIdUn] at h
       rw [un_wrap]
